@@ -540,6 +540,650 @@ theorem mutateRoot_depth (g : Grammar) (dec : Decider) (fuel : Nat) (i : Val) (s
         have hmem := pick_mem _ _ _ _ h
         exact Nat.le_trans (depth_occurrence _ _ _ hmem) (hsrc src rfl)
 
+end GEVerif.Depth
+
+/-! ### Hereditary budget invariant: stored contexts stay usable (variation sequences) -/
+
+namespace GEVerif
+
+mutual
+/-- every stored synthesis context inside `v` leaves room for what hangs below it: a node of
+class `c` stored at depth `d` has `d + dist c ≤ D` (so creation may be re-entered there) and
+`d + depth ≤ D` -/
+def budgetOK (g : Grammar) (D : Nat) : Val → Bool
+  | .node c d _ args =>
+      decide (d + lookupDist g.dist (.cls c) ≤ D) && decide (d + (1 + Val.depthList args) ≤ D)
+        && budgetOKList g D args
+  | .list d _ vs => decide (d + Val.depthList vs ≤ D) && budgetOKList g D vs
+  | .tuple vs => budgetOKList g D vs
+  | _ => true
+def budgetOKList (g : Grammar) (D : Nat) : List Val → Bool
+  | [] => true
+  | v :: vs => budgetOK g D v && budgetOKList g D vs
+end
+
+end GEVerif
+
+namespace GEVerif.Depth
+open GEVerif
+
+theorem ctx_setCtx (v : Val) (d e : Nat) (c : Ctx) (h : (v.setCtx d e).ctx = some c) : c.depth = d := by
+  cases v <;> simp only [Val.setCtx, Val.ctx, Option.some.injEq] at h <;> first | (subst h; rfl) | cases h
+
+theorem budgetOK_setCtx (g : Grammar) (D : Nat) (v : Val) (d e : Nat)
+    (hctx : ∀ c, v.ctx = some c → c.depth = d) (h : budgetOK g D v = true) :
+    budgetOK g D (v.setCtx d e) = true := by
+  cases v with
+  | node c d0 e0 args =>
+    have : d0 = d := hctx ⟨d0, e0⟩ rfl
+    subst this
+    simpa only [Val.setCtx, budgetOK] using h
+  | list d0 e0 vs =>
+    have : d0 = d := hctx ⟨d0, e0⟩ rfl
+    subst this
+    simpa only [Val.setCtx, budgetOK] using h
+  | _ => simpa only [Val.setCtx] using h
+
+mutual
+theorem budgetOK_subvalue (g : Grammar) (D : Nat) : ∀ (v w : Val), w ∈ v.subvalues →
+    budgetOK g D v = true → budgetOK g D w = true
+  | .node c d e args, w, h, hb => by
+    simp only [Val.subvalues, List.mem_cons] at h
+    rcases h with rfl | h
+    · exact hb
+    · simp only [budgetOK, Bool.and_eq_true] at hb
+      exact budgetOK_subvalueList g D args w h hb.2
+  | .list d e vs, w, h, hb => by
+    simp only [Val.subvalues, List.mem_cons] at h
+    rcases h with rfl | h
+    · exact hb
+    · simp only [budgetOK, Bool.and_eq_true] at hb
+      exact budgetOK_subvalueList g D vs w h hb.2
+  | .tuple vs, w, h, hb => by
+    simp only [Val.subvalues, List.mem_cons] at h
+    rcases h with rfl | h
+    · exact hb
+    · simp only [budgetOK] at hb
+      exact budgetOK_subvalueList g D vs w h hb
+  | .int _, w, h, hb => by
+    simp only [Val.subvalues, List.mem_singleton] at h; subst h; exact hb
+  | .float, w, h, hb => by
+    simp only [Val.subvalues, List.mem_singleton] at h; subst h; exact hb
+  | .str _, w, h, hb => by
+    simp only [Val.subvalues, List.mem_singleton] at h; subst h; exact hb
+  | .bool _, w, h, hb => by
+    simp only [Val.subvalues, List.mem_singleton] at h; subst h; exact hb
+  | .foreign _, w, h, hb => by
+    simp only [Val.subvalues, List.mem_singleton] at h; subst h; exact hb
+theorem budgetOK_subvalueList (g : Grammar) (D : Nat) : ∀ (vs : List Val) (w : Val),
+    w ∈ Val.subvaluesList vs → budgetOKList g D vs = true → budgetOK g D w = true
+  | [], w, h, _ => by simp only [Val.subvaluesList] at h; cases h
+  | v :: vs, w, h, hb => by
+    simp only [Val.subvaluesList, List.mem_append] at h
+    simp only [budgetOKList, Bool.and_eq_true] at hb
+    rcases h with h | h
+    · exact budgetOK_subvalue g D v w h hb.1
+    · exact budgetOK_subvalueList g D vs w h hb.2
+end
+
+
+theorem createAbstract_ctx (g : Grammar) (dec : Decider) : ∀ fuel n prods ctx s v s',
+    createAbstract g dec fuel n prods ctx s = .ok v s' → ∀ c, v.ctx = some c → c.depth = ctx.depth := by
+  intro fuel
+  induction fuel with
+  | zero =>
+    intro n prods ctx s v s' h
+    simp only [createAbstract] at h; exact absurd h (throwE_not_ok _ _ _ _)
+  | succ fuel ih =>
+    intro n prods ctx s v s' h
+    rw [createAbstract] at h
+    dsimp only at h
+    split at h
+    · cases h
+    · split at h
+      · cases h
+      · split at h
+        · cases h
+          intro c hc
+          exact ctx_setCtx _ _ _ _ hc
+        · exact ih _ _ _ _ _ _ h
+        · cases h
+
+/-- what `create_node` returns carries the depth of the context it was called with -/
+theorem createNode_ctx (g : Grammar) (dec : Decider) (fuel : Nat) (ty : Ty) (ctx : Ctx)
+    (deps : List (String × Val)) (s s' : SynSt) (v : Val)
+    (h : createNode g dec fuel ty ctx deps s = .ok v s') :
+    ∀ c, v.ctx = some c → c.depth = ctx.depth := by
+  cases fuel with
+  | zero => simp only [createNode] at h; exact absurd h (throwE_not_ok _ _ _ _)
+  | succ fuel =>
+    have hnone : v.ctx = none → ∀ c, v.ctx = some c → c.depth = ctx.depth := by
+      intro h0 c hc; rw [h0] at hc; cases hc
+    cases ty with
+    | int =>
+      simp only [createNode] at h
+      rw [SynM.bind_pure_ok] at h
+      obtain ⟨a, _, rfl⟩ := h
+      exact hnone rfl
+    | float =>
+      simp only [createNode] at h
+      rw [SynM.bind_pure_ok] at h
+      obtain ⟨a, _, rfl⟩ := h
+      exact hnone rfl
+    | str =>
+      simp only [createNode] at h
+      rw [SynM.pure_ok] at h
+      obtain ⟨rfl, _⟩ := h
+      exact hnone rfl
+    | bool =>
+      simp only [createNode] at h
+      rw [SynM.bind_pure_ok] at h
+      obtain ⟨a, _, rfl⟩ := h
+      exact hnone rfl
+    | cls n =>
+      simp only [createNode] at h
+      split at h
+      · exact absurd h (throwE_not_ok _ _ _ _)
+      · cases halts : g.altsOf n with
+        | some prods =>
+          rw [halts] at h
+          exact createAbstract_ctx g dec _ _ _ _ _ _ _ h
+        | none =>
+          rw [halts] at h
+          dsimp only at h
+          rw [SynM.bind_pure_ok] at h
+          obtain ⟨args, _, rfl⟩ := h
+          intro c hc
+          simp only [Val.ctx, Option.some.injEq] at hc
+          subst hc; rfl
+    | list t =>
+      simp only [createNode] at h
+      rw [SynM.bind_ok] at h
+      obtain ⟨len, s1, _, h2⟩ := h
+      rw [SynM.bind_pure_ok] at h2
+      obtain ⟨vs, _, rfl⟩ := h2
+      intro c hc
+      simp only [Val.ctx, Option.some.injEq] at hc
+      subst hc; rfl
+    | tuple ts =>
+      simp only [createNode] at h
+      rw [SynM.bind_pure_ok] at h
+      obtain ⟨vs, _, rfl⟩ := h
+      exact hnone rfl
+    | union ts =>
+      simp only [createNode] at h
+      rw [SynM.bind_ok] at h
+      obtain ⟨t, s1, _, h2⟩ := h
+      rw [SynM.bind_pure_ok] at h2
+      obtain ⟨v0, _, rfl⟩ := h2
+      intro c hc
+      exact ctx_setCtx _ _ _ _ hc
+    | ann base mh =>
+      simp only [createNode] at h
+      by_cases hisdep : mh.isDep = true
+      · rw [if_pos hisdep] at h
+        rw [SynM.bind_ok] at h
+        obtain ⟨mh', s1, _, h⟩ := h
+        rw [SynM.bind_pure_ok] at h
+        obtain ⟨v0, _, rfl⟩ := h
+        intro c hc
+        exact ctx_setCtx _ _ _ _ hc
+      rw [if_neg hisdep] at h
+      cases mh <;> dsimp only at h
+      case depIntRangeLo => exact absurd rfl hisdep
+      case depIntRangeHi => exact absurd rfl hisdep
+      case depListSize => exact absurd rfl hisdep
+      case depVarFrom => exact absurd rfl hisdep
+      case intRange =>
+        rw [SynM.bind_pure_ok] at h
+        obtain ⟨a, _, rfl⟩ := h
+        exact hnone rfl
+      case intList =>
+        rw [SynM.bind_ok] at h
+        obtain ⟨i, s1, _, h⟩ := h
+        rw [SynM.bind_pure_ok] at h
+        obtain ⟨a, _, rfl⟩ := h
+        exact hnone rfl
+      case varRange =>
+        rw [SynM.bind_ok] at h
+        obtain ⟨i, s1, _, h⟩ := h
+        rw [SynM.bind_pure_ok] at h
+        obtain ⟨a, _, rfl⟩ := h
+        exact hnone rfl
+      case strSize =>
+        rw [SynM.bind_ok] at h
+        obtain ⟨i, s1, _, h⟩ := h
+        rw [SynM.bind_pure_ok] at h
+        obtain ⟨a, _, rfl⟩ := h
+        exact hnone rfl
+      case interval =>
+        rw [SynM.bind_ok] at h
+        obtain ⟨i, s1, _, h⟩ := h
+        rw [SynM.bind_pure_ok] at h
+        obtain ⟨a, _, rfl⟩ := h
+        exact hnone rfl
+      case floatRange =>
+        rw [SynM.bind_pure_ok] at h
+        obtain ⟨a, _, rfl⟩ := h
+        exact hnone rfl
+      case floatList =>
+        rw [SynM.bind_pure_ok] at h
+        obtain ⟨a, _, rfl⟩ := h
+        exact hnone rfl
+      case listSize lo hi =>
+        split at h
+        · rw [SynM.bind_ok] at h
+          obtain ⟨size, s1, _, h⟩ := h
+          rw [SynM.bind_pure_ok] at h
+          obtain ⟨vs, _, rfl⟩ := h
+          intro c hc
+          simp only [Val.ctx, Option.some.injEq] at hc
+          subst hc; rfl
+        · exact absurd h (throwE_not_ok _ _ _ _)
+
+
+theorem concrete_inv (g : Grammar) (dec : Decider) (hc : distConsistent g = true)
+    (hD : dec.maxDepth < INF) (n : Nat) (ctx : Ctx)
+    (hreg : ¬(!g.reg.allNodes.contains (Sym.cls n)) = true) (halts : g.altsOf n = none)
+    (hinv : ctx.depth + g.distOf (.cls n) ≤ dec.maxDepth) :
+    ctx.depth + 1 ≤ dec.maxDepth ∧
+      ∀ f ∈ (g.cls n).fields, ctx.depth + 1 + g.distOf f.2 ≤ dec.maxDepth := by
+  have hreg' : g.reg.allNodes.contains (Sym.cls n) = true := by simpa using hreg
+  have hinv' : ctx.depth + lookupDist g.dist (.cls n) ≤ dec.maxDepth := by
+    simpa only [Grammar.distOf, distTy] using hinv
+  obtain ⟨h1, hf⟩ := distConsistent_elim g hc n hreg' halts (by omega)
+  exact ⟨by omega, fun f hfm => by have := hf f hfm; omega⟩
+
+/-- second fuel induction: everything created is `budgetOK` -/
+def BudgetP (g : Grammar) (dec : Decider) (fuel : Nat) : Prop :=
+  (∀ ty ctx deps s v s', createNode g dec fuel ty ctx deps s = .ok v s' →
+      ctx.depth + g.distOf ty ≤ dec.maxDepth → budgetOK g dec.maxDepth v = true) ∧
+  (∀ n prods ctx s v s', createAbstract g dec fuel n prods ctx s = .ok v s' →
+      budgetOK g dec.maxDepth v = true) ∧
+  (∀ fs nctx deps s vs s', createFields g dec fuel fs nctx deps s = .ok vs s' →
+      (∀ f ∈ fs, nctx.depth + g.distOf f.2 ≤ dec.maxDepth) →
+      budgetOKList g dec.maxDepth vs = true) ∧
+  (∀ t nctx deps k s vs s', createElems g dec fuel t nctx deps k s = .ok vs s' →
+      nctx.depth + g.distOf t ≤ dec.maxDepth → budgetOKList g dec.maxDepth vs = true) ∧
+  (∀ ts ctx s vs s', createTuple g dec fuel ts ctx s = .ok vs s' →
+      (∀ t ∈ ts, ctx.depth + g.distOf t ≤ dec.maxDepth) → budgetOKList g dec.maxDepth vs = true)
+
+theorem budgetP_zero (g : Grammar) (dec : Decider) : BudgetP g dec 0 := by
+  refine ⟨?_, ?_, ?_, ?_, ?_⟩
+  · intro ty ctx deps s v s' h; simp only [createNode] at h; exact absurd h (throwE_not_ok _ _ _ _)
+  · intro n prods ctx s v s' h; simp only [createAbstract] at h; exact absurd h (throwE_not_ok _ _ _ _)
+  · intro fs nctx deps s vs s' h; simp only [createFields] at h; exact absurd h (throwE_not_ok _ _ _ _)
+  · intro t nctx deps k s vs s' h; simp only [createElems] at h; exact absurd h (throwE_not_ok _ _ _ _)
+  · intro ts ctx s vs s' h; simp only [createTuple] at h; exact absurd h (throwE_not_ok _ _ _ _)
+
+theorem budget_abstract_succ (g : Grammar) (dec : Decider) (fuel : Nat)
+    (hk : dec.kind.depthLimited = true) (ih : BudgetP g dec fuel) :
+    ∀ n prods ctx s v s', createAbstract g dec (fuel + 1) n prods ctx s = .ok v s' →
+      budgetOK g dec.maxDepth v = true := by
+  intro n prods ctx s v s' h
+  rw [createAbstract] at h
+  dsimp only at h
+  split at h
+  · cases h
+  · split at h
+    · cases h
+    · rename_i rule s1 hch
+      obtain ⟨_, hfit⟩ := chooseProd_fits _ _ _ _ _ _ _ _ hk hch
+      rw [fits_iff] at hfit
+      split at h
+      · rename_i v0 s2 hcn
+        cases h
+        exact budgetOK_setCtx _ _ _ _ _
+          (createNode_ctx g dec fuel rule ⟨ctx.depth, ctx.exp + 1⟩ _ _ _ _ hcn)
+          (ih.1 _ ⟨ctx.depth, ctx.exp + 1⟩ _ _ _ _ hcn hfit)
+      · exact ih.2.1 _ _ _ _ _ _ h
+      · cases h
+
+theorem budget_fields_succ (g : Grammar) (dec : Decider) (fuel : Nat) (ih : BudgetP g dec fuel) :
+    ∀ fs nctx deps s vs s', createFields g dec (fuel + 1) fs nctx deps s = .ok vs s' →
+      (∀ f ∈ fs, nctx.depth + g.distOf f.2 ≤ dec.maxDepth) →
+      budgetOKList g dec.maxDepth vs = true := by
+  intro fs nctx deps s vs s' h hall
+  cases fs with
+  | nil =>
+    simp only [createFields] at h
+    rw [SynM.pure_ok] at h
+    obtain ⟨rfl, _⟩ := h
+    simp only [budgetOKList]
+  | cons f fs =>
+    obtain ⟨name, t⟩ := f
+    simp only [createFields] at h
+    rw [SynM.bind_ok] at h
+    obtain ⟨v, s1, h1, h2⟩ := h
+    rw [SynM.bind_pure_ok] at h2
+    obtain ⟨vs0, h2, rfl⟩ := h2
+    have a := ih.1 _ _ _ _ _ _ h1 (hall (name, t) (List.mem_cons_self ..))
+    have b := ih.2.2.1 _ _ _ _ _ _ h2 (fun f hf => hall f (List.mem_cons_of_mem _ hf))
+    simp only [budgetOKList, a, b, Bool.and_self]
+
+theorem budget_elems_succ (g : Grammar) (dec : Decider) (fuel : Nat) (ih : BudgetP g dec fuel) :
+    ∀ t nctx deps k s vs s', createElems g dec (fuel + 1) t nctx deps k s = .ok vs s' →
+      nctx.depth + g.distOf t ≤ dec.maxDepth → budgetOKList g dec.maxDepth vs = true := by
+  intro t nctx deps k s vs s' h hd
+  cases k with
+  | zero =>
+    simp only [createElems] at h
+    rw [SynM.pure_ok] at h
+    obtain ⟨rfl, _⟩ := h
+    simp only [budgetOKList]
+  | succ k =>
+    simp only [createElems] at h
+    rw [SynM.bind_ok] at h
+    obtain ⟨v, s1, h1, h2⟩ := h
+    rw [SynM.bind_pure_ok] at h2
+    obtain ⟨vs0, h2, rfl⟩ := h2
+    have a := ih.1 _ _ _ _ _ _ h1 hd
+    have b := ih.2.2.2.1 _ _ _ _ _ _ _ h2 hd
+    simp only [budgetOKList, a, b, Bool.and_self]
+
+theorem budget_tuple_succ (g : Grammar) (dec : Decider) (fuel : Nat) (ih : BudgetP g dec fuel) :
+    ∀ ts ctx s vs s', createTuple g dec (fuel + 1) ts ctx s = .ok vs s' →
+      (∀ t ∈ ts, ctx.depth + g.distOf t ≤ dec.maxDepth) → budgetOKList g dec.maxDepth vs = true := by
+  intro ts ctx s vs s' h hall
+  cases ts with
+  | nil =>
+    simp only [createTuple] at h
+    rw [SynM.pure_ok] at h
+    obtain ⟨rfl, _⟩ := h
+    simp only [budgetOKList]
+  | cons t ts =>
+    simp only [createTuple] at h
+    rw [SynM.bind_ok] at h
+    obtain ⟨v, s1, h1, h2⟩ := h
+    rw [SynM.bind_pure_ok] at h2
+    obtain ⟨vs0, h2, rfl⟩ := h2
+    have a := ih.1 _ _ _ _ _ _ h1 (hall t (List.mem_cons_self ..))
+    have b := ih.2.2.2.2 _ _ _ _ _ h2 (fun f hf => hall f (List.mem_cons_of_mem _ hf))
+    simp only [budgetOKList, a, b, Bool.and_self]
+
+theorem budget_node_succ (g : Grammar) (dec : Decider) (fuel : Nat)
+    (hc : distConsistent g = true) (hk : dec.kind.depthLimited = true) (hD : dec.maxDepth < INF)
+    (ih : BudgetP g dec fuel) :
+    ∀ ty ctx deps s v s', createNode g dec (fuel + 1) ty ctx deps s = .ok v s' →
+      ctx.depth + g.distOf ty ≤ dec.maxDepth → budgetOK g dec.maxDepth v = true := by
+  intro ty ctx deps s v s' h hinv
+  -- the depth bound of the value as a whole is the first induction
+  have hdepth := (depthP_all g dec hc hk hD (fuel + 1)).1 ty ctx deps s v s' h hinv
+  cases ty with
+  | int =>
+    simp only [createNode] at h
+    rw [SynM.bind_pure_ok] at h
+    obtain ⟨a, _, rfl⟩ := h
+    rfl
+  | float =>
+    simp only [createNode] at h
+    rw [SynM.bind_pure_ok] at h
+    obtain ⟨a, _, rfl⟩ := h
+    rfl
+  | str =>
+    simp only [createNode] at h
+    rw [SynM.pure_ok] at h
+    obtain ⟨rfl, _⟩ := h
+    rfl
+  | bool =>
+    simp only [createNode] at h
+    rw [SynM.bind_pure_ok] at h
+    obtain ⟨a, _, rfl⟩ := h
+    rfl
+  | cls n =>
+    simp only [createNode] at h
+    split at h
+    · exact absurd h (throwE_not_ok _ _ _ _)
+    · rename_i hreg
+      cases halts : g.altsOf n with
+      | some prods =>
+        rw [halts] at h
+        exact ih.2.1 _ _ _ _ _ _ h
+      | none =>
+        rw [halts] at h
+        dsimp only at h
+        rw [SynM.bind_pure_ok] at h
+        obtain ⟨args, h2, rfl⟩ := h
+        obtain ⟨_, hf⟩ := concrete_inv g dec hc hD n ctx hreg halts hinv
+        have hb := ih.2.2.1 _ ⟨ctx.depth + 1, ctx.exp + 1⟩ _ _ _ _ h2 hf
+        have hinv' : ctx.depth + lookupDist g.dist (.cls n) ≤ dec.maxDepth := by
+          simpa only [Grammar.distOf, distTy] using hinv
+        simp only [Val.depth] at hdepth
+        simp only [budgetOK, hb, Bool.and_true, Bool.and_eq_true, decide_eq_true_eq]
+        exact ⟨hinv', hdepth⟩
+  | list t =>
+    simp only [createNode] at h
+    rw [SynM.bind_ok] at h
+    obtain ⟨len, s1, _, h2⟩ := h
+    rw [SynM.bind_pure_ok] at h2
+    obtain ⟨vs, h2, rfl⟩ := h2
+    have hinv' : ctx.depth + g.e + g.distOf t ≤ dec.maxDepth := by
+      simp only [Grammar.distOf, distTy] at hinv ⊢; omega
+    have hb := ih.2.2.2.1 t ⟨ctx.depth + g.e, ctx.exp + 1⟩ _ _ _ _ _ h2 hinv'
+    simp only [Val.depth] at hdepth
+    simp only [budgetOK, hb, Bool.and_true, decide_eq_true_eq]
+    exact hdepth
+  | tuple ts =>
+    simp only [createNode] at h
+    rw [SynM.bind_pure_ok] at h
+    obtain ⟨vs, h2, rfl⟩ := h
+    simp only [budgetOK]
+    refine ih.2.2.2.2 _ _ _ _ _ h2 ?_
+    intro t ht
+    have := distTysMax_ge g.e g.dist ts t ht
+    simp only [Grammar.distOf, distTy] at hinv ⊢; omega
+  | union ts =>
+    simp only [createNode] at h
+    rw [SynM.bind_ok] at h
+    obtain ⟨t, s1, hch, h2⟩ := h
+    rw [SynM.bind_pure_ok] at h2
+    obtain ⟨v0, h2, rfl⟩ := h2
+    obtain ⟨_, hfit⟩ := chooseProd_fits _ _ _ _ _ _ _ _ hk hch
+    rw [fits_iff] at hfit
+    exact budgetOK_setCtx _ _ _ _ _ (createNode_ctx g dec fuel t ctx _ _ _ _ h2)
+      (ih.1 _ _ _ _ _ _ h2 hfit)
+  | ann base mh =>
+    rw [distOf_ann] at hinv
+    have hbase : (∀ D, budgetOK g D v = true) → budgetOK g dec.maxDepth v = true := fun h0 => h0 _
+    simp only [createNode] at h
+    by_cases hisdep : mh.isDep = true
+    · rw [if_pos hisdep] at h
+      rw [SynM.bind_ok] at h
+      obtain ⟨mh', s1, _, h⟩ := h
+      rw [SynM.bind_pure_ok] at h
+      obtain ⟨v0, h0, rfl⟩ := h
+      exact budgetOK_setCtx _ _ _ _ _
+        (createNode_ctx g dec fuel _ ⟨ctx.depth, ctx.exp + 1⟩ _ _ _ _ h0)
+        (ih.1 _ ⟨ctx.depth, ctx.exp + 1⟩ _ _ _ _ h0 (by rw [distOf_ann]; exact hinv))
+    rw [if_neg hisdep] at h
+    cases mh <;> dsimp only at h
+    case depIntRangeLo => exact absurd rfl hisdep
+    case depIntRangeHi => exact absurd rfl hisdep
+    case depListSize => exact absurd rfl hisdep
+    case depVarFrom => exact absurd rfl hisdep
+    case intRange =>
+      rw [SynM.bind_pure_ok] at h
+      obtain ⟨a, _, rfl⟩ := h
+      rfl
+    case intList =>
+      rw [SynM.bind_ok] at h
+      obtain ⟨i, s1, _, h⟩ := h
+      rw [SynM.bind_pure_ok] at h
+      obtain ⟨a, _, rfl⟩ := h
+      rfl
+    case varRange =>
+      rw [SynM.bind_ok] at h
+      obtain ⟨i, s1, _, h⟩ := h
+      rw [SynM.bind_pure_ok] at h
+      obtain ⟨a, _, rfl⟩ := h
+      rfl
+    case strSize =>
+      rw [SynM.bind_ok] at h
+      obtain ⟨i, s1, _, h⟩ := h
+      rw [SynM.bind_pure_ok] at h
+      obtain ⟨a, _, rfl⟩ := h
+      rfl
+    case interval =>
+      rw [SynM.bind_ok] at h
+      obtain ⟨i, s1, _, h⟩ := h
+      rw [SynM.bind_pure_ok] at h
+      obtain ⟨a, _, rfl⟩ := h
+      simp only [budgetOK, budgetOKList, Bool.and_self]
+    case floatRange =>
+      rw [SynM.bind_pure_ok] at h
+      obtain ⟨a, _, rfl⟩ := h
+      rfl
+    case floatList =>
+      rw [SynM.bind_pure_ok] at h
+      obtain ⟨a, _, rfl⟩ := h
+      rfl
+    case listSize lo hi =>
+      split at h
+      · rename_i inner
+        rw [SynM.bind_ok] at h
+        obtain ⟨size, s1, _, h⟩ := h
+        rw [SynM.bind_pure_ok] at h
+        obtain ⟨vs, h2, rfl⟩ := h
+        have hinv' : ctx.depth + g.distOf inner ≤ dec.maxDepth := by
+          simp only [Grammar.distOf, distTy] at hinv ⊢; omega
+        have hb := ih.2.2.2.1 inner ⟨ctx.depth, ctx.exp + 1⟩ _ _ _ _ _ h2 hinv'
+        simp only [Val.depth] at hdepth
+        simp only [budgetOK, hb, Bool.and_true, decide_eq_true_eq]
+        exact hdepth
+      · exact absurd h (throwE_not_ok _ _ _ _)
+
+theorem budgetP_all (g : Grammar) (dec : Decider) (hc : distConsistent g = true)
+    (hk : dec.kind.depthLimited = true) (hD : dec.maxDepth < INF) : ∀ fuel, BudgetP g dec fuel := by
+  intro fuel
+  induction fuel with
+  | zero => exact budgetP_zero g dec
+  | succ fuel ih =>
+    exact ⟨budget_node_succ g dec fuel hc hk hD ih, budget_abstract_succ g dec fuel hk ih,
+      budget_fields_succ g dec fuel ih, budget_elems_succ g dec fuel ih, budget_tuple_succ g dec fuel ih⟩
+
+
+/-- what the evolutionary loop maintains for every individual: it respects the limit, all its
+stored contexts leave room for re-creation, and creation of the start symbol may be re-entered
+at its stored root context -/
+def IndOK (g : Grammar) (dec : Decider) (v : Val) : Prop :=
+  v.depth ≤ dec.maxDepth ∧ budgetOK g dec.maxDepth v = true ∧
+    ∀ ctx, v.ctx = some ctx → ctx.depth + g.minTreeDepth ≤ dec.maxDepth
+
+theorem indOK_create (g : Grammar) (dec : Decider) (fuel : Nat) (ctx : Ctx) (s s' : SynSt) (v : Val)
+    (hc : distConsistent g = true) (hk : dec.kind.depthLimited = true) (hD : dec.maxDepth < INF)
+    (hinv : ctx.depth + g.minTreeDepth ≤ dec.maxDepth)
+    (h : createNode g dec fuel (.cls g.spec.start) ctx [] s = .ok v s') : IndOK g dec v := by
+  have hinv' : ctx.depth + g.distOf (.cls g.spec.start) ≤ dec.maxDepth := by
+    rw [distOf_start]; exact hinv
+  refine ⟨?_, (budgetP_all g dec hc hk hD fuel).1 _ _ _ _ _ _ h hinv', ?_⟩
+  · have := (depthP_all g dec hc hk hD fuel).1 _ _ _ _ _ _ h hinv'
+    omega
+  · intro c hcx
+    rw [createNode_ctx g dec fuel _ ctx _ _ _ _ h c hcx]; exact hinv
+
+theorem indOK_occurrence (g : Grammar) (dec : Decider) (src w : Val) (hs : IndOK g dec src)
+    (hw : w ∈ occurrences g.spec.start src) : IndOK g dec w := by
+  have hd := depth_occurrence _ _ _ hw
+  unfold occurrences at hw
+  rw [List.mem_filter] at hw
+  obtain ⟨hsub, hnode⟩ := hw
+  have hb := budgetOK_subvalue g dec.maxDepth src w hsub hs.2.1
+  refine ⟨Nat.le_trans hd hs.1, hb, ?_⟩
+  cases w with
+  | node c d e args =>
+    simp only [beq_iff_eq] at hnode
+    subst hnode
+    intro ctx hctx
+    simp only [Val.ctx, Option.some.injEq] at hctx
+    subst hctx
+    simp only [budgetOK, Bool.and_eq_true, decide_eq_true_eq] at hb
+    exact hb.1.1
+  | _ => cases hnode
+
+theorem indOK_mutateRoot (g : Grammar) (dec : Decider) (fuel : Nat) (i : Val) (source : Option Val)
+    (s s' : SynSt) (c : Val) (hc : distConsistent g = true) (hk : dec.kind.depthLimited = true)
+    (hD : dec.maxDepth < INF) (hvalid : g.minTreeDepth ≤ dec.maxDepth)
+    (hi : IndOK g dec i) (hsrc : ∀ src, source = some src → IndOK g dec src)
+    (h : mutateRoot g dec fuel i source s = .ok c s') : IndOK g dec c := by
+  unfold mutateRoot at h
+  cases hctx : i.ctx with
+  | none =>
+    rw [hctx] at h
+    dsimp only at h
+    exact indOK_create g dec fuel ⟨0, 0⟩ s s' c hc hk hD (by simpa using hvalid) h
+  | some ctx =>
+    rw [hctx] at h
+    dsimp only at h
+    have hfresh : createNode g dec fuel (.cls g.spec.start) ctx [] s = .ok c s' → IndOK g dec c :=
+      fun h => indOK_create g dec fuel ctx s s' c hc hk hD (hi.2.2 ctx hctx) h
+    cases source with
+    | none => exact hfresh h
+    | some src =>
+      dsimp only at h
+      by_cases hemp : (occurrences g.spec.start src).isEmpty = true
+      · rw [if_pos hemp] at h; exact hfresh h
+      · rw [if_neg hemp] at h
+        exact indOK_occurrence g dec src c (hsrc src rfl) (pick_mem _ _ _ _ h)
+
+end GEVerif.Depth
+
+namespace GEVerif
+
+/-- the individuals an evolutionary run can hold under one decider: initial trees (from any
+random source or genotype, at any fuel) closed under `tree_mutate` and `tree_crossover` -/
+inductive Reachable (g : Grammar) (dec : Decider) : Val → Prop
+  | init (fuel : Nat) (s s' : SynSt) (v : Val) :
+      randomTree g dec fuel s = .ok v s' → Reachable g dec v
+  | mutate (fuel : Nat) (p : Val) (s s' : SynSt) (c : Val) :
+      Reachable g dec p → treeMutate g dec fuel p s = .ok c s' → Reachable g dec c
+  | crossLeft (fuel : Nat) (p1 p2 : Val) (s s' : SynSt) (c1 c2 : Val) :
+      Reachable g dec p1 → Reachable g dec p2 →
+      treeCrossover g dec fuel p1 p2 s = .ok (c1, c2) s' → Reachable g dec c1
+  | crossRight (fuel : Nat) (p1 p2 : Val) (s s' : SynSt) (c1 c2 : Val) :
+      Reachable g dec p1 → Reachable g dec p2 →
+      treeCrossover g dec fuel p1 p2 s = .ok (c1, c2) s' → Reachable g dec c2
+
+end GEVerif
+
+namespace GEVerif.Depth
+open GEVerif
+
+theorem indOK_crossover (g : Grammar) (dec : Decider) (fuel : Nat) (p1 p2 : Val)
+    (s s' : SynSt) (c1 c2 : Val) (hc : distConsistent g = true) (hk : dec.kind.depthLimited = true)
+    (hD : dec.maxDepth < INF) (hvalid : g.minTreeDepth ≤ dec.maxDepth)
+    (h1 : IndOK g dec p1) (h2 : IndOK g dec p2)
+    (h : treeCrossover g dec fuel p1 p2 s = .ok (c1, c2) s') : IndOK g dec c1 ∧ IndOK g dec c2 := by
+  unfold treeCrossover at h
+  rw [SynM.bind_ok] at h
+  obtain ⟨a, s1, ha, h⟩ := h
+  rw [SynM.bind_ok] at h
+  obtain ⟨b, s2, hb, h⟩ := h
+  rw [SynM.pure_ok] at h
+  obtain ⟨hab, _⟩ := h
+  cases hab
+  exact ⟨indOK_mutateRoot g dec fuel p1 (some p2) s s1 _ hc hk hD hvalid h1
+      (fun _ h => by cases h; exact h2) ha,
+    indOK_mutateRoot g dec fuel p2 (some p1) s1 s2 _ hc hk hD hvalid h2
+      (fun _ h => by cases h; exact h1) hb⟩
+
+theorem indOK_reachable (g : Grammar) (dec : Decider) (hc : distConsistent g = true)
+    (hk : dec.kind.depthLimited = true) (hD : dec.maxDepth < INF)
+    (hvalid : g.minTreeDepth ≤ dec.maxDepth) (v : Val) (h : Reachable g dec v) : IndOK g dec v := by
+  induction h with
+  | init fuel s s' v h =>
+    exact indOK_create g dec fuel ⟨0, 0⟩ s s' v hc hk hD (by simpa using hvalid) h
+  | mutate fuel p s s' c _ h ih =>
+    exact indOK_mutateRoot g dec fuel p none s s' c hc hk hD hvalid ih (fun _ h => by cases h) h
+  | crossLeft fuel p1 p2 s s' c1 c2 _ _ h ih1 ih2 =>
+    exact (indOK_crossover g dec fuel p1 p2 s s' c1 c2 hc hk hD hvalid ih1 ih2 h).1
+  | crossRight fuel p1 p2 s s' c1 c2 _ _ h ih1 ih2 =>
+    exact (indOK_crossover g dec fuel p1 p2 s s' c1 c2 hc hk hD hvalid ih1 ih2 h).2
+
+end GEVerif.Depth
+
+namespace GEVerif.Depth
+open GEVerif
+
 /-! ### A concrete grammar for the non-vacuity examples -/
 
 /-- abstract `Expr` with `Lit(v : Annotated[int, IntRange(0,9)])`, `Add(l r : Expr)` and
